@@ -394,6 +394,46 @@ def derives_from(root, expr, target, depth=0):
     return False
 
 
+def value_is(root, expr, target, depth=0):
+    """Is the value of `expr` the node `target` on every path (through lets, `?`, builder / clone / fold wrappers)? A `match` /
+    `if` whose arms do not all yield the node is a shortcut around it."""
+    if depth > 8 or expr is None:
+        return False
+    e = expr
+    while e.get("k") in ("DropTemps", "Use", "AddrOf", "Cast", "Type") and "e" in e:
+        e = e["e"]
+    if e is target:
+        return True
+    if e.get("k") == "Block":
+        blk = e["block"]
+        return blk.get("expr") is not None and value_is(root, blk["expr"], target, depth + 1)
+    if e.get("k") == "Match":
+        if "TryDesugar" in (e.get("source") or ""):
+            sc = e["scrut"]
+            inner = sc["args"][0] if sc.get("k") == "Call" and sc.get("args") else sc
+            return value_is(root, inner, target, depth + 1)
+        arms = [a for a in e["arms"] if not T.diverges(a["body"])]
+        return bool(arms) and all(value_is(root, a["body"], target, depth + 1) for a in arms)
+    if e.get("k") == "If":
+        outs = [x for x in (e.get("then"), e.get("else")) if x is not None and not T.diverges(x)]
+        return "else" in e and bool(outs) and all(value_is(root, x, target, depth + 1) for x in outs)
+    if e.get("k") == "Path" and e.get("res") == "local":
+        return value_is(root, _binding_init(root, e["local"]), target, depth + 1)
+    if e.get("k") in ("Call", "MethodCall"):
+        subs = ([e["recv"]] if e.get("k") == "MethodCall" else []) + list(e.get("args", []))
+        holding = [a for a in subs if any(x is target for x, _ in F.walk(a))]
+        if len(holding) == 1:
+            return value_is(root, holding[0], target, depth + 1)
+        if not holding and e.get("k") == "MethodCall" and e["method"] in ("clone", "constant_fold", "into", "to_owned"):
+            return value_is(root, e["recv"], target, depth + 1)
+        # the builder handed a let-bound node: `let data = Node {..}; build().symbolic_exec(ip, data)`
+        name = e["method"] if e.get("k") == "MethodCall" else (F.callee_def(e) or "").split("::")[-1]
+        if not holding and name in ("symbolic_exec", "symbolic", "new", "new_synthetic", "new_from_execution", "into", "from", "Ok", "Some"):
+            return any(value_is(root, a, target, depth + 1) for a in e.get("args", []))
+        return False
+    return False
+
+
 def check_r072(fx, rep, dm):
     oracle_ops = {r[0]: r for r in tables.read("evm_operands.tsv")}
     opc = {int(r[0], 16): r[1] for r in tables.read("evm_opcodes.tsv")}
@@ -438,17 +478,21 @@ def check_r072(fx, rep, dm):
             ok = True  # a + b = b + a: either order denotes the EVM result
         # the node built is what gets pushed
         pushed = False
+        other_push = False
         for c, cps in F.calls(root_b):
             if c.get("k") == "MethodCall" and c["method"] == "push" and HANDLE in (c.get("recv_ty") or "") and c["args"]:
-                if derives_from(root_b, c["args"][0], s):
+                if value_is(root_b, c["args"][0], s):
                     pushed = True
+                else:
+                    other_push = True  # a path that leaves something else on the stack (a shortcut around the node)
+        pushed = pushed and not other_push
         needs_push = mn not in ("SELFDESTRUCT",)
         rep.oblige(
             ok and (pushed or not needs_push),
             "R07.2",
             f"roles:{mn}",
             F.loc(s["span"]),
-            f"{mn}: stack inputs must go to {node}{{{', '.join(f'{f}: mu{i}' for i, f in enumerate(want))}}}; found {{{', '.join(f'{f}: mu{v}' if v is not None else f'{f}: ?' for f, v in sorted(got.items()))}}}" + ("" if pushed or not needs_push else "; the node is not what is pushed"),
+            f"{mn}: stack inputs must go to {node}{{{', '.join(f'{f}: mu{i}' for i, f in enumerate(want))}}}; found {{{', '.join(f'{f}: mu{v}' if v is not None else f'{f}: ?' for f, v in sorted(got.items()))}}}" + ("" if pushed or not needs_push else "; the node is not what is pushed on every path"),
             sample={"rule": "R07.2", "mnemonic": mn, "node": node, "roles": got},
         )
     rep.floor("R07.2", n, 25, "instructions with an operand-role row")
